@@ -5,7 +5,6 @@ from props import c05
 
 LEVEL = "proof"
 MANIFEST = dict(
-    claimed=False, reason="check built (theorems proved, oracle and harness run) but five mismatch kinds on the unchanged tree are still being triaged; not claimed until they are repaired or recorded",
     cat="proof", tech="Coq theorems on what a cycle with a given youngest cell represents + verified checker applied to every returned cycle",
     text="Coq theorems (all primes, all sizes, any decomposition accepted by the matrix checker): a chain accepted by check_rep (zero boundary, "
          "youngest cell b) is, while b is unpaired among the first J cells, not homologous in K_J to any chain of older cells (C08_rep_alive); "
